@@ -24,7 +24,9 @@ def run(prop, tier, seed, replay=None):
             for c in v["viol"]:
                 if not c.startswith(prop + "_"):
                     continue
-                if prop == "C08":
+                if prop == "C08" and r["kind"] == "truth":
+                    rep.violation({"clause": c, "variant": r["variant"]}, {"observed": r})
+                elif prop == "C08":
                     rep.violation({"clause": c, "sys": r["sys"], "finalWritten": r["finalWritten"], "latest": r["latest"]},
                                   {"kill": {k: r[k] for k in ("k", "ncalls", "sys", "path")}, "observed": r})
                 else:
@@ -34,7 +36,7 @@ def run(prop, tier, seed, replay=None):
         with open(rec) as f:
             for i, line in enumerate(f):
                 o = json.loads(line)
-                by_sys[o["sys"]] = by_sys.get(o["sys"], 0) + 1
+                by_sys[o.get("sys", o["kind"])] = by_sys.get(o.get("sys", o["kind"]), 0) + 1
                 if i in (2, 7):
                     samples.append(o)
         rep.cov.update({"states": states, "transitions": transitions, "model_checking_runs": runs,
@@ -44,8 +46,8 @@ def run(prop, tier, seed, replay=None):
             rep.cov["rule"] = ("the real binary runs `start` on a 2-step DAG with an exit handler under ptrace; it is SIGKILLed at the entry of every %s relevant system call "
                                "(history, log, marker, status socket; whole process group), then the real client's GetLatestStatus is asked, the DAG is started again with the real binary and "
                                "must run to completion and be recorded; plus the unkilled control run; distinct = kill points" % ("3rd" if q else ""))
-            rep.assumptions += ["'while a run is in progress the reported status is the live state' is covered by the C20 rig (live socket) and the C16 placements, not by this sweep",
-                                "the final-state-equals-what-happened clause is checked on the control run and by SchedObserve's C08 clauses in the scheduler rig"]
+            rep.assumptions += ["live / final truth is checked on three unkilled runs of the real binary (all succeed; failure with retry and continueOn plus a blocked step; unmet precondition) polled every 40 ms",
+                                "a final status that becomes visible a moment before the process exits is accepted as live answer"]
         else:
             rep.cov["rule"] = ("the first `start` of the real binary is held at its k-th relevant system call (every call between its probe and its bind; every %s elsewhere) while a second `start` of the same file "
                                "runs to completion; steps append their own DAG_REQUEST_ID to a marker file; distinct = placements" % ("9th" if q else "2nd"))
